@@ -43,6 +43,10 @@ type Thread struct {
 	opDone  bool
 	done    bool
 	idle    bool // pending op is Quiesce: only when nothing else is enabled
+	// Low marks an adversary thread of a scenario (a Close, cancel, fault or timer thread): by default it runs
+	// only when no ordinary thread is enabled, and scheduling it at any earlier point costs one deviation; once
+	// running it continues like any other thread until it blocks. "At every instant" then means one deviation.
+	Low bool
 	killed  bool
 	started bool
 	fn      func()
@@ -277,6 +281,15 @@ func NoteStr(s string) { Note(hashStr(s)) }
 // Go starts fn as a new managed thread.
 func Go(fn func()) { GoNamed("", fn) }
 
+// GoLow starts fn as a low-priority (adversary) thread: see Thread.Low.
+func GoLow(name string, fn func()) *Thread {
+	t := GoNamed(name, fn)
+	if t != nil {
+		t.Low = true
+	}
+	return t
+}
+
 func GoNamed(name string, fn func()) *Thread {
 	if Killing() {
 		return nil
@@ -488,8 +501,18 @@ func (s *Sched) finishFrom(t *Thread, exiting bool) {
 func (s *Sched) enabled(t *Thread) []alt {
 	var out []alt
 	n := len(s.threads)
-	add := func(u *Thread, idle bool) {
-		if u.done || u.idle != idle {
+	// scheduling class: 0 ordinary (and the running thread), 1 low priority, 2 idle (Quiesce)
+	class := func(u *Thread) int {
+		switch {
+		case u.idle:
+			return 2
+		case u.Low && u != t:
+			return 1
+		}
+		return 0
+	}
+	add := func(u *Thread, cl int) {
+		if u.done || class(u) != cl {
 			return
 		}
 		k := 1
@@ -510,10 +533,17 @@ func (s *Sched) enabled(t *Thread) []alt {
 			pos = i
 		}
 	}
-	for pass := 0; pass < 2 && len(out) == 0; pass++ {
+	for pass := 0; pass < 3 && len(out) == 0; pass++ {
 		for i := 0; i < n; i++ {
 			u := s.order[(pos+i)%n]
-			add(u, pass == 1)
+			add(u, pass)
+		}
+		if pass == 0 && len(out) > 0 {
+			// low-priority threads are never the default while an ordinary thread is enabled, but they
+			// are alternatives (at the cost of one deviation) at every choice point
+			for i := 0; i < n; i++ {
+				add(s.order[(pos+i)%n], 1)
+			}
 		}
 	}
 	return out
